@@ -719,6 +719,127 @@ Proof.
   specialize (OK S0). unfold ncb in B. rewrite OK in B. cbn in B. split; [lia|exact OK].
 Qed.
 
+(* ================= cross-thread subscribe vs the collector's exchange ================= *)
+Lemma set_nth_split {A} (l : list A) : forall j x y, nth_error l j = Some x ->
+  l = firstn j l ++ x :: skipn (S j) l /\ set_nth l j y = firstn j l ++ y :: skipn (S j) l.
+Proof.
+  induction l as [|h t IH]; intros j x y H; destruct j; cbn in H; try discriminate.
+  - inversion H; subst. split; reflexivity.
+  - destruct (IH _ _ y H) as (E1 & E2). cbn [firstn skipn set_nth app]. split; f_equal; assumption.
+Qed.
+
+Definition cs_inv (c : cs) : Prop := Permutation (concat (c_rounds c) ++ c_head c) (published c).
+
+Lemma cs_thread_inv c j : cs_inv c -> cs_inv (cs_thread c j) /\ map sid (c_subs (cs_thread c j)) = map sid (c_subs c).
+Proof.
+  intros I. unfold cs_thread. destruct (nth_error (c_subs c) j) as [x|] eqn:N.
+  - destruct (spub x) eqn:P; [split; [exact I|reflexivity]|].
+    destruct (oeq (sexp x) (head_id (c_head c))).
+    + destruct (set_nth_split _ _ _ (mkSub (sid x) (sexp x) true) N) as (E1 & E2).
+      remember (firstn j (c_subs c)) as a eqn:Ha. remember (skipn (S j) (c_subs c)) as b eqn:Hb. clear Ha Hb.
+      unfold cs_inv, published in *. cbn [c_rounds c_head c_subs]. rewrite E2. rewrite E1 in I |- *. split.
+      * rewrite filter_app, map_app in *. cbn [filter spub map sid] in *. rewrite P in I.
+        apply Permutation_sym. apply Permutation_trans with (sid x :: map sid (filter spub a) ++ map sid (filter spub b)).
+        { apply Permutation_sym, Permutation_middle. }
+        apply Permutation_sym. change ((sid x :: c_head c)) with ([sid x] ++ c_head c).
+        apply Permutation_trans with (sid x :: concat (c_rounds c) ++ c_head c).
+        { apply Permutation_sym. apply (Permutation_middle (concat (c_rounds c)) (c_head c) (sid x)). }
+        constructor. exact I.
+      * rewrite !map_app. reflexivity.
+    + destruct (set_nth_split _ _ _ (mkSub (sid x) (head_id (c_head c)) false) N) as (E1 & E2).
+      remember (firstn j (c_subs c)) as a eqn:Ha. remember (skipn (S j) (c_subs c)) as b eqn:Hb. clear Ha Hb.
+      unfold cs_inv, published in *. cbn [c_rounds c_head c_subs]. rewrite E2. rewrite E1 in I |- *. split.
+      * rewrite filter_app, map_app in *. cbn [filter spub map sid] in *. rewrite P in I. exact I.
+      * rewrite !map_app. reflexivity.
+  - destruct (c_left c); [split; [exact I|reflexivity]|]. split; [|reflexivity].
+    unfold cs_inv, published in *. cbn [c_rounds c_head c_subs]. rewrite concat_app. cbn [concat]. rewrite !app_nil_r. exact I.
+Qed.
+
+Lemma cs_run_inv sched : forall c, cs_inv c -> cs_inv (cs_run c sched) /\ map sid (c_subs (cs_run c sched)) = map sid (c_subs c).
+Proof.
+  induction sched as [|k t IH]; intros c I; cbn [cs_run fold_left]; [split; [exact I|reflexivity]|].
+  assert (S : cs_inv (cs_step c k) /\ map sid (c_subs (cs_step c k)) = map sid (c_subs c)).
+  { unfold cs_step. destruct (enabled c); [split; [exact I|reflexivity]|]. apply cs_thread_inv. exact I. }
+  destruct S as (I1 & M1). destruct (IH _ I1) as (I2 & M2). split; [exact I2|]. unfold cs_run in M2. rewrite M2. exact M1.
+Qed.
+
+Lemma NoDup_filter_map (l : list sub) : NoDup (map sid l) -> NoDup (map sid (filter spub l)).
+Proof.
+  induction l as [|x t IH]; cbn [map filter]; intros H; [constructor|].
+  inversion H as [|? ? NI ND]; subst. destruct (spub x); cbn [map]; [|apply IH; exact ND].
+  constructor; [|apply IH; exact ND]. intros I. apply NI. apply in_map_iff in I. destruct I as (y & E & F).
+  apply filter_In in F. apply in_map_iff. exists y. split; [exact E|apply F].
+Qed.
+
+(* for every number of subscribers, every number of exchanges, every schedule: the rounds taken by the collector
+   together with what is still in the chain contain exactly the subscribers whose CAS succeeded — each once,
+   nobody else; in particular right after an exchange (chain empty) every published subscriber is in a round *)
+Theorem concurrent_subscribe : forall ids k sched, NoDup ids ->
+  let c := cs_run (cs0 ids k) sched in
+  Permutation (concat (c_rounds c) ++ c_head c) (published c) /\
+  NoDup (concat (c_rounds c) ++ c_head c) /\
+  incl (published c) ids /\
+  (forall x, In x ids -> ~ In x (published c) -> ~ In x (concat (c_rounds c) ++ c_head c)).
+Proof.
+  intros ids k sched ND c.
+  assert (I0 : cs_inv (cs0 ids k)).
+  { unfold cs_inv, published, cs0. cbn [c_rounds c_head c_subs concat app].
+    induction ids as [|a t IH]; cbn [map filter spub]; [constructor|]. apply IH. inversion ND; assumption. }
+  destruct (cs_run_inv sched _ I0) as (I & M). fold c in I, M.
+  assert (M0 : map sid (c_subs (cs0 ids k)) = ids).
+  { unfold cs0. cbn [c_subs]. rewrite map_map. cbn [sid]. apply map_id. }
+  rewrite M0 in M.
+  assert (NP : NoDup (published c)) by (apply NoDup_filter_map; rewrite M; exact ND).
+  split; [exact I|]. split.
+  { apply (Permutation_NoDup (Permutation_sym I)). exact NP. }
+  split.
+  { intros x H. unfold published in H. apply in_map_iff in H. destruct H as (y & E & F). apply filter_In in F.
+    rewrite <- M. apply in_map_iff. exists y. split; [exact E|apply F]. }
+  intros x _ NI H. apply NI. apply (Permutation_in _ I). exact H.
+Qed.
+
+(* progress: while a subscriber has not published it stays enabled, and a subscriber that runs twice in a row
+   without another thread in between publishes (the second attempt of its CAS loop succeeds) *)
+Lemma cs_two_attempts c j x : nth_error (c_subs c) j = Some x -> spub x = false ->
+  exists y, nth_error (c_subs (cs_thread (cs_thread c j) j)) j = Some y /\ spub y = true /\ sid y = sid x.
+Proof.
+  intros N P. unfold cs_thread at 2. rewrite N, P.
+  assert (L : (j < length (c_subs c))%nat) by (apply nth_error_Some; rewrite N; discriminate).
+  destruct (oeq (sexp x) (head_id (c_head c))) eqn:O.
+  - unfold cs_thread. cbn [c_subs]. rewrite nth_error_set_nth_same by exact L. cbn [spub].
+    cbn [c_subs]. rewrite nth_error_set_nth_same by exact L. eexists. split; [reflexivity|]. split; reflexivity.
+  - unfold cs_thread. cbn [c_subs c_head]. rewrite nth_error_set_nth_same by exact L. cbn [spub sexp].
+    assert (R : oeq (head_id (c_head c)) (head_id (c_head c)) = true).
+    { destruct (head_id (c_head c)); cbn; [apply Nat.eqb_refl|reflexivity]. }
+    rewrite R. cbn [c_subs].
+    assert (L2 : (j < length (set_nth (c_subs c) j (mkSub (sid x) (head_id (c_head c)) false)))%nat).
+    { apply nth_error_Some. rewrite nth_error_set_nth_same by exact L. discriminate. }
+    rewrite nth_error_set_nth_same by exact L2. eexists. split; [reflexivity|]. split; reflexivity.
+Qed.
+
+(* ================= a listener that only re-awaits ================= *)
+(* resumed with a value, a coroutine whose script is `for(;;) co_await e;` (no limit, no pause) logs the value and is
+   back in the chain — at its head — before its resumption ends, i.e. before any other code (the collector
+   included) can run; its script parameters are unchanged, so the same holds at the next value *)
+Theorem reawait_rejoins : forall s g v, await_resume s = Some v ->
+  l_limit (getl s g) = O -> l_pause (getl s g) = false ->
+  exists s', co_resumed g s = (s', [ERecv g v; EAwait g], false) /\
+     chain s' = (g, false) :: chain s /\ queue s' = queue s /\ same_val s s' /\
+     l_limit (getl s' g) = O /\ l_pause (getl s' g) = false /\
+     (forall inl, run_item inl (g, true) s = (s', [ERecv g v; EAwait g])).
+Proof.
+  intros s g v AR L P. pose proof (ar_alive _ _ AR) as A.
+  assert (E : co_resumed g s = (subscribe (setl s g (mkLis (l_limit (getl s g)) (l_pause (getl s g)) (l_retry (getl s g)) (S (l_cnt (getl s g))))) g false,
+                                [ERecv g v; EAwait g], false)).
+  { unfold co_resumed. rewrite AR, L, P. cbn [Nat.eqb negb andb]. rewrite co_await_e_alive by exact A. reflexivity. }
+  eexists. split; [exact E|]. split; [reflexivity|]. split; [reflexivity|].
+  split; [apply (same_val_trans _ (setl s g (mkLis (l_limit (getl s g)) (l_pause (getl s g)) (l_retry (getl s g)) (S (l_cnt (getl s g))))));
+          [apply same_val_setl|apply same_val_subscribe]|].
+  change (getl (subscribe ?x g false) g) with (getl x g). rewrite getl_setl_same. cbn [l_limit l_pause].
+  split; [exact L|]. split; [exact P|].
+  intros inl. unfold run_item. rewrite E. reflexivity.
+Qed.
+
 (* ================= the refuted case (finding F-C15) ================= *)
 Lemma discard_overrun_witness :
   let ops := [OSpawn 1 0 false 0; OEmit 0 false 1; OEmit 0 false 2; OEmit 0 true 3; OPause] in
